@@ -538,11 +538,11 @@ def rand_image(ctx, d, kind, shape=None):
     if kind == "V2":
         shape = shape or (rnd.randint(2, 5), rnd.randint(2, 5))
         return d.Image(r.randint(0, 9, size=shape + (2,)).astype(float), dimensions=dims2(2), scalar=False)
-    if kind in ("S2s", "S2sd"):
+    if kind in ("S2s", "S2sd", "S2sn"):
         shape = shape or (rnd.randint(2, 4), rnd.randint(2, 4))
         T = rnd.randint(2, 3)
-        kw = dict(time=[float(3 * k) for k in range(T)]) if kind == "S2s" else dict(
-            date=[EPOCH + dt.timedelta(seconds=10 * k) for k in range(T)])
+        kw = dict(time=[float(3 * k) for k in range(T)]) if kind == "S2s" else (dict(
+            date=[EPOCH + dt.timedelta(seconds=10 * k) for k in range(T)]) if kind == "S2sd" else {})
         return d.ScalarImage(r.randint(0, 9, size=shape + (T,)).astype(float), dimensions=dims2(2), series=True, **kw)
     if kind == "S3":
         shape = shape or (rnd.randint(2, 4), rnd.randint(2, 4), rnd.randint(2, 4))
@@ -561,7 +561,7 @@ def twin(ctx, d, img):
     return t
 
 
-KINDS = ["S2", "S2u8", "S2f32", "S2b", "S2u16", "O2u8", "O2f32", "V2", "S2s", "S2sd", "S3", "S1"]
+KINDS = ["S2", "S2u8", "S2f32", "S2b", "S2u16", "O2u8", "O2f32", "V2", "S2s", "S2sd", "S2sn", "S3", "S1"]
 NUMERIC = ["S2", "S2u8", "S2f32", "S2u16", "V2", "S2s", "S3", "S1", "O2f32"]
 
 
@@ -723,6 +723,32 @@ def registry(d):
     def _(ctx, a):
         b = twin(ctx, d, a)
         b.time = [t + 100 for t in a.time]
+        lst = [a, b]
+        return (lambda: d.stack(lst)), [lst]
+
+    def single_after(ctx, a):
+        """a single (non-series) image that can follow the series `a`: later date / time, or neither"""
+        r = nprng(ctx)
+        kw = {}
+        if not a._is_none(a.date):
+            kw["date"] = a.date[-1] + dt.timedelta(seconds=ctx.rng.randint(1, 50))
+        elif not a._is_none(a.time):
+            kw["time"] = float(a.time[-1]) + ctx.rng.randint(1, 9)
+        return d.ScalarImage(r.randint(0, 9, size=a.img.shape[:2]).astype(a.img.dtype), dimensions=list(a.dimensions),
+                             origin=[float(x) for x in a.origin], **kw)
+
+    @form("stack[series,single,...]", ["S2s", "S2sd", "S2sn"])
+    def _(ctx, a):
+        lst = [a, single_after(ctx, a)]
+        if ctx.rng.random() < 0.4 and a._is_none(a.date) and a._is_none(a.time):
+            lst.append(single_after(ctx, a))
+        return (lambda: d.stack(lst)), [lst]
+
+    @form("stack[series,series]", ["S2sd", "S2sn"])
+    def _(ctx, a):
+        b = twin(ctx, d, a)
+        if not a._is_none(a.date):
+            b.date = [x + dt.timedelta(seconds=1000) for x in a.date]
         lst = [a, b]
         return (lambda: d.stack(lst)), [lst]
 
@@ -889,7 +915,7 @@ def chains(ctx, d, R, n):
     snapshotted when it appears and must be unchanged after every later call"""
     names = sorted(R)
     for c in range(n):
-        kind = ctx.rng.choice(["S2", "S2", "S2f32", "S2s", "S3", "O2u8", "V2", "S2u8"])
+        kind = ctx.rng.choice(["S2", "S2", "S2f32", "S2s", "S2sd", "S2sn", "S3", "O2u8", "V2", "S2u8"])
         pool = [rand_image(ctx, d, kind)]
         pool.append(twin(ctx, d, pool[0]))
         tracked = [(x, snap(x, d), "operand") for x in pool]
